@@ -141,7 +141,7 @@ func runSpec(spec *Spec, dir string, verbose bool) *Result {
 	s := &Sim{spec: spec, seed: spec.Seed, seedS: fmt.Sprint(spec.Seed), t0: time.Now(), note: make(chan struct{}, 1),
 		occ: map[string]int{}, daemons: map[string]*Daemon{}, hostInc: map[string]int{}, liveByHost: map[string]*Daemon{}, dir: dir,
 		explicit: map[string]string{}, verbose: verbose,
-		stats:    &Stats{Faults: map[string]int{}, Probes: map[string]int{}}}
+		stats: &Stats{Faults: map[string]int{}, Probes: map[string]int{}}}
 	theSim = s
 	simrt.Seed = spec.Seed
 	if verbose {
